@@ -108,7 +108,7 @@ def rs_event(op: list, slot: int, scn: Dict[str, Any], scratch: str) -> List[lis
     if kind == "rewind":
         return [[at, "m.rewind", slot, os.path.join(scratch, f"snap-{os.getpid()}-{at}.pcsnap"), int(op[2])]]
     if kind == "scramble":
-        return [[at, "m.scramble", slot, op[2], op[3], op[4], op[5]] + ([op[6]] if len(op) > 6 else [])]
+        return [[at, "m.scramble", slot, op[2], op[3], op[4], op[5]] + list(op[6:8])]
     raise HarnessError(f"unknown machine op {kind}")
 
 
